@@ -179,7 +179,9 @@ NextVerdicts(r) ==
        \cup (IF post.txset # <<>> THEN {V("C07", "a new block starts with transactions", "")} ELSE {})
        \cup (IF CoinMap(post) # CoinMap(pre) \/ post.pools # pre.pools \/ post.feePool # pre.feePool \/ post.feeMult # pre.feeMult \/ post.dosc # pre.dosc
              THEN {V("C07", "next_unsealed changed coins, pools, fee pool, fee multiplier or DOSC speed", "")} ELSE {})
-       \cup (IF post.tips # Zero THEN {V("C08", "pending tips survive the block boundary (a state rebuilt from its block has none)", "KF-tips-survive")} ELSE {})
+       \cup (IF post.tips # Zero THEN {V("C08", "pending tips survive the block boundary (a state rebuilt from its block has none)", "KF-tips-survive"),
+                                       V("C05", "tips of a block sealed without a proposer action are carried to a later block's proposer", "KF-tips-survive")} ELSE {})
+       \cup (IF post.feePool # pre.feePool THEN {V("C05", "the fee pool changed at a block boundary", "")} ELSE {})
        \cup (IF ~activates /\ post.counts # pre.counts THEN {V("C20", "next_unsealed changed the coin counts", "")} ELSE {})
        \cup StateVerdicts(post)
 
@@ -195,6 +197,22 @@ BlockVerdicts(r) ==
        \cup (IF ~ok /\ must THEN {V("C06", "rejected the correct successor block (" \o r.x.mut \o ")", "")} ELSE {})
        \cup (IF ok /\ r.post.header.hash # r.header.hash THEN {V("C06", "the returned state's header is not the block's header", "")} ELSE {})
        \cup (IF ok THEN AcceptVerdicts(r.txs, r.basis, "ok", ctx, "apply_block") ELSE {})
+       \* the returned state must be the result of applying the block's transactions and proposer action to the parent's successor and sealing
+       \cup (IF ok /\ acc
+             THEN LET b == r.txs
+                      cm1 == NextCoins(b, CoinMap(r.basis), r.basis.height)
+                      st1 == [r.basis EXCEPT !.coins = SeqOfCoinMap(cm1),
+                                             !.feePool = SatAdd(r.basis.feePool, FeeSum(b, r.basis.feeMult)),
+                                             !.tips = SatAdd(r.basis.tips, TipSum(b, r.basis.feeMult))]
+                      e == SealSpec(st1, r.action, b, r.rewardid)
+                      pcm == CoinMap(r.post)
+                      ppm == PoolMap(r.post)
+                  IN IF e.defined /\ (pcm # e.cm \/ r.post.feePool # e.feePool \/ r.post.feeMult # e.feeMult
+                                      \/ DOMAIN ppm # DOMAIN e.pools \/ \E k \in DOMAIN ppm \cap DOMAIN e.pools : ppm[k].l # e.pools[k].l \/ ppm[k].r # e.pools[k].r \/ ppm[k].liqs # e.pools[k].liqs
+                                      \/ StakeMap(r.post) # Merge(StakeMap(r.basis), NewStakes(b, r.basis.net, r.basis.height)))
+                     THEN {V("C06", "the state returned by apply_block is not the result of applying the block's transactions and proposer action to the parent and sealing (" \o r.x.mut \o ")", "")}
+                     ELSE {}
+             ELSE {})
        \cup (IF ok THEN StateVerdicts(r.post) \cup PoolVerdicts(r.post) \cup HeaderVerdicts(r.post) ELSE {})
 
 \* ---- restart ---------------------------------------------------------------------------------------------------
